@@ -1,11 +1,272 @@
-import EaselModel.Getopts.Model
-/-! C14 property theorems (being filled in). -/
+import EaselModel.Getopts.Sources
+import EaselModel.Getopts.Abbrev
+/-! # C14 — option processing resolves every configuration by the documented rules
+
+Property theorems about the executable model `EaselModel.Getopts` of `esl_getopts.c` (tied to the working tree by
+the differential run of `harness/h_getopts.c`).  Proofs here are glue on the named lemmas of
+`EaselModel/Getopts/{Lemmas,Total,Abbrev,Verify,History,Sources}.lean`.
+
+Full statement (properties.jsonl) and where each clause is proved, for every well-formed option table (`WF`)
+and every sequence of sources:
+* (a) value = last source that set it, default otherwise; second setting by the same source is a usage error:
+  `sources_are_setting_sequences_*`, `last_setter_wins`, `untouched_keeps_state`, `fresh_object_all_default`,
+  `same_source_twice_is_usage_error`, `set_after_toggle_by_same_source_is_usage_error`
+* (b) toggles: `set_option_spec`, `toggle_switches_others_off`
+* (c) abbreviations: `abbrev_full_name_resolves`, `abbrev_resolves_iff_unique`, `abbrev_ambiguous_iff`, `abbrev_unknown_iff`
+* (d) `--`, arguments in order: `dashdash_ends_options`, `first_nonoption_ends_options`, `args_returned_in_order`, `getArg_spec`
+* "plus/minus-prefixed booleans": no such feature exists in this version; `plus_word_is_argument` states what the code does.
+* (e) usage errors, never a crash: `cmdline_ends_cleanly`, `spoof_ends_cleanly`, `environment_ends_cleanly`,
+  `configfile_ends_cleanly`, `rejected_setting_changes_nothing`, `unknown_long_option`, `ambiguous_long_option`,
+  `unknown_short_option`, `argument_to_flag`, `missing_argument_long`, `verifyConfig_spec`
+* (f) queries: `isUsed_iff`, `isDefault_of_default_setter`, `not_default_has_setter`
+
+Not proved here (checked by the differential run only): that the decimal `strtod`/`strtol` models agree with glibc;
+that `parseRange` on a documented range string yields the bounds a reader expects (examples below by `decide`). -/
 namespace EaselModel.Props.C14
 open EaselModel.Getopts
 
-/-- (f) `IsUsed` is exactly "not default and on" -/
-theorem isUsed_iff (g : G) (i : Nat) : isUsed g i = (!isDefault g i && isOn g i) := by
-  unfold isUsed isOn
-  cases isDefault g i <;> cases (g.valOf i).isNull <;> rfl
+/-! ## (a) sources are sequences of settings; the last one wins -/
+
+theorem sources_are_setting_sequences_env (g : G) (env : Str → Option Str) :
+    processEnvironment g env = runEvs g (envEvents env 0 g.opts) := processEnvironment_eq g env
+
+theorem sources_are_setting_sequences_cfg (g : G) (content : Str) :
+    processConfigfile g content = runCfg (byCfgfile + g.nfiles) g ((fileLines content).filterMap (cfgItem g.opts)) :=
+  processConfigfile_eq g content
+
+theorem sources_are_setting_sequences_cmdline (g : G) (argv : List Str) :
+    processCmdline g argv = runCmd (fun g' => .done g' .ok false) { g with argv := argv, optind := 1 }
+      (parseCmd g.opts 1 (argv.drop 1) false) := processCmdline_eq g argv
+
+/-- a run of settings that succeeds is a history in the sense of `runSets` -/
+theorem successful_run_is_history (es : List Ev) (g g' : G) (m : Bool) (h : runEvs g es = .done g' .ok m) :
+    runSets g es = some g' := runEvs_ok_runSets es g g' m h
+
+theorem last_setter_wins (pre post : List Ev) (e : Ev) (g g' : G) (hinv : Inv g)
+    (hi : ∀ e' ∈ pre ++ e :: post, e'.i < g.opts.length)
+    (h : runSets g (pre ++ e :: post) = some g') (hlast : ∀ e' ∈ post, touches g.opts e' e.i = false) :
+    g'.valOf e.i = newVal (g.opt e.i) e.arg ∧ g'.setter e.i = e.src :=
+  runSets_last_set pre post e g g' hinv hi h hlast
+
+theorem untouched_keeps_state (es : List Ev) (g g' : G) (j : Nat) (hinv : Inv g) (hi : ∀ e ∈ es, e.i < g.opts.length)
+    (h : runSets g es = some g') (ht : ∀ e ∈ es, touches g.opts e j = false) :
+    g'.valOf j = g.valOf j ∧ g'.setter j = g.setter j :=
+  let ⟨a, b, _, _⟩ := runSets_untouched es g g' j hinv hi h ht; ⟨a, b⟩
+
+theorem fresh_object_all_default {opts : List Opt} {g : G} (h : create opts = some g) :
+    g.opts = opts ∧ Inv g ∧ g.spoofed = false ∧ g.nfiles = 0 ∧
+    ∀ i, i < opts.length → g.setter i = byDefault ∧ isDefault g i = true ∧
+      g.valOf i = (match (g.opt i).defval with | some d => Val.str d | none => Val.null) := create_spec h
+
+theorem same_source_twice_is_usage_error {g g1 : G} {i src : Nat} {arg arg' : Option Str} {m : Bool} (hinv : Inv g)
+    (hi : i < g.opts.length) (h : setOption g i arg src = .done g1 .ok m) :
+    setOption g1 i arg' src = .done g1 .esyntax true := same_source_twice hinv hi h
+
+theorem set_after_toggle_by_same_source_is_usage_error {g g1 : G} {i j src : Nat} {arg arg' : Option Str} {m : Bool}
+    (hinv : Inv g) (hi : i < g.opts.length) (h : setOption g i arg src = .done g1 .ok m) (hj : j ≠ i)
+    (hmem : j ∈ listIdx g.opts (g.opt i).toggle) (hon : (g.valOf j).isNull = false) :
+    setOption g1 j arg' src = .done g1 .esyntax true := set_after_toggle_same_source hinv hi h hj hmem hon
+
+/-! ## (b) toggle groups -/
+
+/-- a successful `set_option(i, arg, src)`: option `i` gets the value and `src`; every *other* member of `i`'s toggle
+    list that was on is switched off and records `src`; every other option is untouched; no message -/
+theorem set_option_spec {g g' : G} {i src : Nat} {arg : Option Str} {m : Bool} (hinv : Inv g) (hi : i < g.opts.length)
+    (h : setOption g i arg src = .done g' .ok m) :
+    m = false ∧ Inv g' ∧ SameFrame g g' ∧ g.setter i ≠ src ∧ verifyTypeRange (g.opt i) arg src = .good ∧
+    ∀ j, (g'.valOf j, g'.setter j) = setSpec g i arg src j :=
+  let ⟨a, b, c, d, e, _, f⟩ := setOption_ok hinv hi h; ⟨a, b, c, d, e, f⟩
+
+theorem toggle_switches_others_off (pre post : List Ev) (e : Ev) (j : Nat) (g g' : G) (hinv : Inv g)
+    (hi : ∀ e' ∈ pre ++ e :: post, e'.i < g.opts.length)
+    (h : runSets g (pre ++ e :: post) = some g') (hj : j ≠ e.i) (hmem : j ∈ listIdx g.opts (g.opt e.i).toggle)
+    (hlast : ∀ e' ∈ post, touches g.opts e' j = false) :
+    isOn g' j = false ∧
+    ∃ g1, runSets g pre = some g1 ∧ (if isOn g1 j then g'.setter j = e.src else g'.setter j = g1.setter j) :=
+  runSets_toggled pre post e j g g' hinv hi h hj hmem hlast
+
+/-! ## (c) abbreviated long options -/
+
+theorem abbrev_full_name_resolves {opts : List Opt} {key : Str} {e : Nat} {o : Opt} (he : opts[e]? = some o)
+    (hname : o.name = key) (hfirst : ∀ j o', j < e → opts[j]? = some o' → o'.name ≠ key) :
+    optidxAbbrev opts key = .found e := abbrev_exact he hname hfirst
+
+theorem abbrev_resolves_iff_unique {opts : List Opt} {key : Str} (hne : ∀ o' ∈ opts, o'.name ≠ key) (u : Nat) :
+    optidxAbbrev opts key = .found u ↔
+    ∃ o, opts[u]? = some o ∧ isAbbr key o = true ∧ ∀ (j : Nat) (o' : Opt), opts[j]? = some o' → isAbbr key o' = true → j = u :=
+  abbrev_resolves_iff hne u
+
+theorem abbrev_ambiguous_iff_two {opts : List Opt} {key : Str} (hne : ∀ o' ∈ opts, o'.name ≠ key) :
+    optidxAbbrev opts key = .ambiguous ↔
+    ∃ (i j : Nat) (a b : Opt), i < j ∧ opts[i]? = some a ∧ opts[j]? = some b ∧ isAbbr key a = true ∧ isAbbr key b = true :=
+  abbrev_ambiguous_iff hne
+
+theorem abbrev_unknown_iff {opts : List Opt} {key : Str} :
+    optidxAbbrev opts key = .notfound ↔ ∀ o ∈ opts, isAbbr key o = false := abbrev_notfound_iff
+
+/-! ## (d) end of options, arguments -/
+
+theorem dashdash_ends_options (g : G) (k : Nat) (rest : List Str) :
+    cmdLoop g k (['-', '-'] :: rest) false = .done { g with optind := k + 1 } .ok false := cmdLoop_dashdash g k rest
+
+theorem first_nonoption_ends_options (g : G) (k : Nat) (w : Str) (rest : List Str) (h : isArgWord w = true) :
+    cmdLoop g k (w :: rest) false = .done { g with optind := k } .ok false := cmdLoop_argword g k w rest h
+
+/-- the clause "plus/minus-prefixed booleans set and unset" of the statement has no counterpart in this version of the
+    code: a word beginning with `+` ends the options like any other non-option word -/
+theorem plus_word_is_argument (g : G) (k : Nat) (r : Str) (rest : List Str) :
+    cmdLoop g k (('+' :: r) :: rest) false = .done { g with optind := k } .ok false :=
+  cmdLoop_argword g k _ rest (plus_is_argword r)
+
+theorem args_returned_in_order (g : G) (pre rest : List Str) (hargv : g.argv = pre ++ rest) (hk : g.optind = pre.length) (n : Nat) :
+    getArg g ((n : Int) + 1) = rest[n]? ∧ argNumber g = rest.length := getArg_of_split g pre rest hargv hk n
+
+theorem getArg_is_argv_from_optind (g : G) (n : Nat) :
+    getArg g ((n : Int) + 1) = if g.optind + n < g.argc then g.argv[g.optind + n]? else none := getArg_spec g n
+
+/-! ## (e) usage errors, never a crash -/
+
+theorem cmdline_ends_cleanly (g : G) (argv : List Str) (hinv : Inv g) (hw : WF g.opts) : Good g (processCmdline g argv) :=
+  processCmdline_good g argv hinv hw
+
+theorem spoof_ends_cleanly (g : G) (s : Str) (hinv : Inv g) (hw : WF g.opts) (hs : g.spoofed = false) : Good g (processSpoof g s) :=
+  processSpoof_good g s hinv hw hs
+
+theorem environment_ends_cleanly (g : G) (env : Str → Option Str) (hinv : Inv g) (hw : WF g.opts) : Good g (processEnvironment g env) :=
+  processEnvironment_good g env hinv hw
+
+theorem configfile_ends_cleanly (g : G) (content : Str) (hinv : Inv g) (hw : WF g.opts) : Good g (processConfigfile g content) :=
+  processConfigfile_good g content hinv hw
+
+/-- already set by this source, wrong type, out of range: usage error with a message, object untouched -/
+theorem rejected_setting_changes_nothing {g : G} {i src : Nat} {arg : Option Str}
+    (h : g.setter i = src ∨ verifyTypeRange (g.opt i) arg src = .bad) : setOption g i arg src = .done g .esyntax true :=
+  setOption_rejected h
+
+theorem unknown_long_option (g : G) (k : Nat) (r : Str) (tl : List Str) (hr : r ≠ [])
+    (h : optidxAbbrev g.opts (splitEq ('-' :: '-' :: r)).1 = .notfound) :
+    cmdLoop g k (('-' :: '-' :: r) :: tl) false = .done { g with optind := k } .esyntax true := by
+  have h2 : (('-' :: '-' :: r) == ['-', '-']) = false := by
+    cases r with
+    | nil => exact absurd rfl hr
+    | cons a b => rfl
+  rw [cmdLoop_afterStep g k _ tl (by simp [isArgWord, startsWithDash]) h2]
+  simp [optStep, longOpt, h, afterStep]
+
+theorem ambiguous_long_option (g : G) (k : Nat) (r : Str) (tl : List Str) (hr : r ≠ [])
+    (h : optidxAbbrev g.opts (splitEq ('-' :: '-' :: r)).1 = .ambiguous) :
+    cmdLoop g k (('-' :: '-' :: r) :: tl) false = .done { g with optind := k } .esyntax true := by
+  have h2 : (('-' :: '-' :: r) == ['-', '-']) = false := by
+    cases r with
+    | nil => exact absurd rfl hr
+    | cons a b => rfl
+  rw [cmdLoop_afterStep g k _ tl (by simp [isArgWord, startsWithDash]) h2]
+  simp [optStep, longOpt, h, afterStep]
+
+/-- `--flag=value` for an option that takes no argument -/
+theorem argument_to_flag (g : G) (k i : Nat) (r a : Str) (tl : List Str) (hr : r ≠ [])
+    (h : optidxAbbrev g.opts (splitEq ('-' :: '-' :: r)).1 = .found i) (ha : (splitEq ('-' :: '-' :: r)).2 = some a)
+    (ht : (g.opt i).type = 0) :
+    cmdLoop g k (('-' :: '-' :: r) :: tl) false = .done { g with optind := k + 1 } .esyntax true := by
+  have h2 : (('-' :: '-' :: r) == ['-', '-']) = false := by
+    cases r with
+    | nil => exact absurd rfl hr
+    | cons a b => rfl
+  rw [cmdLoop_afterStep g k _ tl (by simp [isArgWord, startsWithDash]) h2]
+  simp [optStep, longOpt, h, ha, ht, afterStep]
+
+/-- a long option that takes an argument, at the end of the command line, without `=value` -/
+theorem missing_argument_long (g : G) (k i : Nat) (r : Str) (hr : r ≠ [])
+    (h : optidxAbbrev g.opts (splitEq ('-' :: '-' :: r)).1 = .found i) (ha : (splitEq ('-' :: '-' :: r)).2 = none)
+    (ht : (g.opt i).type ≠ 0) :
+    cmdLoop g k [('-' :: '-' :: r)] false = .done { g with optind := k + 1 } .esyntax true := by
+  have h2 : (('-' :: '-' :: r) == ['-', '-']) = false := by
+    cases r with
+    | nil => exact absurd rfl hr
+    | cons a b => rfl
+  rw [cmdLoop_afterStep g k _ [] (by simp [isArgWord, startsWithDash]) h2]
+  simp [optStep, longOpt, h, ha, ht, afterStep]
+
+/-- an option character that is no single-character option — in particular a `-` inside a cluster (fix: DESIGN §7
+    item 2) — is a usage error; options set earlier in the same cluster stay set (documented: processing is in order) -/
+theorem unknown_short_option (g : G) (c : Char) (cs : Str) (next : Option Str) (h : findShort g.opts c = none) :
+    stdLoop g (c :: cs) next = .stop g .esyntax true 1 := by
+  simp [stdLoop, h]
+
+theorem verifyConfig_ok_iff_consistent (g : G) (hw : WF g.opts) :
+    (verifyConfig g = (.ok, false) ∧ ∀ j, j < g.opts.length → g.isSetOn j = true → ReqOk g j ∧ IncOk g j) ∨
+    (verifyConfig g = (.esyntax, true) ∧ ∃ j, j < g.opts.length ∧ g.isSetOn j = true ∧ (¬ ReqOk g j ∨ ¬ IncOk g j)) :=
+  verifyConfig_spec g hw
+
+/-! ## (f) queries -/
+
+theorem isUsed_iff (g : G) (i : Nat) : isUsed g i = (!isDefault g i && isOn g i) := isUsed_eq g i
+
+theorem isDefault_of_default_setter (g : G) (i : Nat) (h : g.setter i = byDefault) : isDefault g i = true :=
+  isDefault_of_setter g i h
+
+theorem not_default_has_setter (g : G) (i : Nat) (h : isDefault g i = false) : g.setter i ≠ byDefault :=
+  setter_of_not_default g i h
+
+/-! ## non-vacuity: a concrete well-formed table and concrete runs -/
+
+def s (x : String) : Str := x.toList
+
+/-- `-a`, `-b`/`--no-b` toggle group, `-n` integer in `0<=n<10`, `--lown` requires `-a`, `--hin` incompatible with `--no-b`,
+    `--multi`/`--mul` share a prefix -/
+def demo : List Opt := [
+  { name := s "-a", type := 0 },
+  { name := s "-b", type := 0, toggle := some (s "-b,--no-b") },
+  { name := s "--no-b", type := 0, defval := some (s "TRUE"), toggle := some (s "-b,--no-b") },
+  { name := s "-n", type := 1, defval := some (s "0"), range := some (s "0<=n<10") },
+  { name := s "--lown", type := 1, defval := some (s "42"), range := some (s "n>0"), required := some (s "-a") },
+  { name := s "--hin", type := 1, defval := some (s "-1"), range := some (s "n<0"), incompat := some (s "--no-b") },
+  { name := s "--multi", type := 4 },
+  { name := s "--mul", type := 0 } ]
+
+def demoG : G := (create demo).getD default
+
+example : create demo = some demoG := by decide
+example : Inv demoG := ⟨by decide, by decide⟩
+
+theorem demo_wf : WF demo := by
+  intro o ho
+  simp only [demo, List.mem_cons, List.not_mem_nil, or_false] at ho
+  rcases ho with rfl | rfl | rfl | rfl | rfl | rfl | rfl | rfl <;>
+    exact ⟨by decide, by decide, by decide, by decide, by decide⟩
+
+/-- `-ab` (cluster) then `--mu` is ambiguous? no: `--mul` and `--multi` both start with `--mu` -/
+example : optidxAbbrev demo (s "--mu") = .ambiguous := by decide
+example : optidxAbbrev demo (s "--mul") = .found 7 := by decide
+example : optidxAbbrev demo (s "--mult") = .found 6 := by decide
+example : optidxAbbrev demo (s "--zzz") = .notfound := by decide
+
+/-- cluster `-ab`, value `-n9`, then `--`, then two arguments one of which looks like an option -/
+def run1 : G := match processCmdline demoG [s "prog", s "-ab", s "-n9", s "--", s "-x", s "+y"] with
+  | .done g .ok false => g
+  | _ => default
+example : (run1.optind, run1.valOf 0, run1.valOf 1, run1.valOf 2, run1.setter 2) = (4, .one, .one, .null, 1) := by decide
+example : (run1.valOf 3, getArg run1 1, getArg run1 2, getArg run1 3) = (.str (s "9"), some (s "-x"), some (s "+y"), none) := by decide
+
+/-- range and type errors, unmet requirement, violated incompatibility -/
+example : (match processCmdline demoG [s "prog", s "-n", s "10"] with | .done g st m => (st, m, g.valOf 3) | .fault => default)
+    = (.esyntax, true, .str (s "0")) := by decide
+example : (match processCmdline demoG [s "prog", s "-n", s "x"] with | .done _ st m => (st, m) | .fault => default) = (.esyntax, true) := by decide
+example : (match processCmdline demoG [s "prog", s "--lown", s "5"] with | .done g _ _ => verifyConfig g | .fault => default) = (.esyntax, true) := by decide
+example : (match processCmdline demoG [s "prog", s "--lown", s "5", s "-a"] with | .done g _ _ => verifyConfig g | .fault => default) = (.ok, false) := by decide
+example : (match processCmdline demoG [s "prog", s "--hin=-3"] with | .done g _ _ => verifyConfig g | .fault => default) = (.ok, false) := by decide
+/-- `-a-`: the `-` inside the cluster is not an option (it used to select the first long option) -/
+example : (match processCmdline demoG [s "prog", s "-a-"] with | .done g st m => (st, m, g.valOf 0, g.valOf 4) | .fault => default)
+    = (.esyntax, true, .one, .str (s "42")) := by decide
+/-- config file then command line: the later source wins, the toggle partner is switched off and records the setter -/
+def run2 : G := match processConfigfile demoG (s "-b\n-n 3 # comment\n") with
+  | .done g .ok false => (match processCmdline g [s "prog", s "--no-b", s "-n", s "7"] with
+      | .done g' .ok false => g'
+      | _ => default)
+  | _ => default
+example : (run2.valOf 1, run2.setter 1, run2.valOf 2, run2.setter 2) = (.null, 1, .str (s "TRUE"), 1) := by decide
+example : (run2.valOf 3, run2.setter 3, run2.nfiles) = (.str (s "7"), 1, 1) := by decide
+/-- a config-file line naming an argument-taking option without argument (fix 8d4fde4) -/
+example : (match processConfigfile demoG (s "-n\n") with | .done g st m => (st, m, g.nfiles) | .fault => default) = (.esyntax, true, 0) := by decide
 
 end EaselModel.Props.C14
